@@ -418,6 +418,14 @@ def judge_round(ctx, sc, rnd):
         return 2 * acc_names.index(l["name"]) if l["kind"] == "account" else 2 * ep_names.index(l["name"]) + 1
     events = [[t, model_id(l), m, w] for t, l, m, w in res["events"] if t >= 0 and l in locks]
     tasks = [t["task"] for t in res["tasks"]]
+    # the probe starts one attempt per certificate the way the daemon's own loop does (it looks the locks up in the
+    # loop's maps): a round in which fewer attempts started than there are certificates judges nothing
+    if len(tasks) != sc["ncert"]:
+        ctx.count("harness:attempts-not-started", sc["ncert"] - len(tasks))
+        ctx.broke("harness", "the probe started %d attempts for %d certificates (its copy of the task-spawning loop of "
+                  "MainEventLoop::run no longer finds the account / endpoint locks): nothing was observed in this round"
+                  % (len(tasks), sc["ncert"]), dict(robj, tasks=res["tasks"]))
+        return
     # register-once per (account, endpoint): from each endpoint's CA log
     pairs = []
     nonces = []
